@@ -40,6 +40,6 @@ Deliver, in the root of {wt}:
      - it must not hard-code {wt}; it should finish within 60 s and be deterministic (if it depends on thread timing, force the
      interleaving, e.g. by wrapping/monkeypatching functions in the demo to pause at the critical point, rather than hoping);
   3. NOTES.md - 5-15 lines: what you changed, why it breaks the property, what exactly is needed for it to manifest.
-Verify yourself: demo passes without the change (git stash), fails with it, and the test suite passes with it.  Leave the
+Verify yourself: demo passes without the change (use `git diff > patch.diff; git apply -R patch.diff` and later `git apply patch.diff` - do NOT use git stash, the stash is shared with other worktrees), fails with it, and the test suite passes with it.  Leave the
 change applied in the worktree when you finish.  In your final answer give a 5-line summary (what changed, what triggers it).
 """.format(wt=wt, prop=json.dumps(p, indent=1), lpid=pid.lower(), hint=hint))
